@@ -15,7 +15,7 @@ class C20(ProgProp):
     id = "C20"
     report = ("C20",)
     cfg = {"p_sync": 0.12, "p_try": 0.1, "p_ctx": 0.08, "p_sv": 0.05, "p_fault": 0.12, "item_faults": 0.05,
-           "flush_faults": 0.06, "p_timer": 0.05, "p_item_value_sync": 0.5, "max_kinds": 3}
+           "flush_faults": 0.06, "p_timer": 0.05, "p_item_value_sync": 0.5, "max_kinds": 3, "p_item_eq": 0.3}
 
     def base_cfg(self, tier):
         cfg = ProgProp.base_cfg(self, tier)
